@@ -679,10 +679,10 @@ func (res *c15Result) judgeParse(w *c15World, family, label, text string, txn bo
 
 // ---- generators ------------------------------------------------------------------------
 
-var c15NS = map[string]string{"_": "http://d/", "ex": "http://ex/ns#", "s": "https://sec/", "httpx": "http://hx/"}
+var c15NS = map[string]string{"_": "http://d/", "ex": "http://ex/ns#", "s": "https://sec/", "httpx": "http://hx/", "ns3": "http://other-hub/3/"}
 
 func ctxJSON() string {
-	return `{"id":"@context","namespaces":{"_":"http://d/","ex":"http://ex/ns#","s":"https://sec/","httpx":"http://hx/"}}`
+	return `{"id":"@context","namespaces":{"_":"http://d/","ex":"http://ex/ns#","s":"https://sec/","httpx":"http://hx/","ns3":"http://other-hub/3/"}}`
 }
 
 // value shapes (JSON text), depth <= 2
@@ -700,7 +700,8 @@ func c15Values() []string {
 // id forms: default prefix, declared prefix, absolute http and https URIs, a local part with a colon, and a
 // declared prefix that merely starts with the letters of a URI scheme (with and without a slash in the local part)
 func c15IDs() []string {
-	return []string{"e1", "ex:e1", "http://abs/e1", "https://sec/p#e1", "s:e:1", "httpx:e1", "httpx:a/b"}
+	// (ns3: a prefix shaped like the hub's own, bound by the document to a namespace of another hub)
+	return []string{"e1", "ex:e1", "http://abs/e1", "https://sec/p#e1", "s:e:1", "httpx:e1", "httpx:a/b", "ns3:e1"}
 }
 
 func c15Refs() []string {
@@ -761,12 +762,12 @@ func c15Docs() [][]string {
 
 // ctxAltJSON binds the same prefixes to other namespaces (requests with different contexts follow each other)
 func ctxAltJSON() string {
-	return `{"id":"@context","namespaces":{"_":"http://alt/","ex":"http://alt.ex/ns#","s":"https://alt.sec/","httpx":"http://alt.hx/"}}`
+	return `{"id":"@context","namespaces":{"_":"http://alt/","ex":"http://alt.ex/ns#","s":"https://alt.sec/","httpx":"http://alt.hx/","ns3":"http://alt.other-hub/3/"}}`
 }
 
 // ctxOddJSON: expansions that do not end in a separator: a CURIE still denotes expansion + local part, nothing else
 func ctxOddJSON() string {
-	return `{"id":"@context","namespaces":{"_":"urn:d:","ex":"urn:isbn:","s":"https://sec/item-","httpx":"http://hx/q?id="}}`
+	return `{"id":"@context","namespaces":{"_":"urn:d:","ex":"urn:isbn:","s":"https://sec/item-","httpx":"http://hx/q?id=","ns3":"urn:other:3:"}}`
 }
 
 func docTextCtx(ctx string, ents []string, cont string) string {
@@ -1077,7 +1078,7 @@ func c15Run(t c15Task) (res c15Result) {
 				continue
 			}
 			d1, d2 := w.newDataset(), w.newDataset()
-			text := `{"@context":{"namespaces":{"_":"http://d/","ex":"http://ex/ns#","s":"https://sec/","httpx":"http://hx/"}},"` + d1 + `":[` + strings.Join(docs[i], ",") + `],"` + d2 + `":[` + docs[i][0] + `]}`
+			text := `{"@context":{"namespaces":{"_":"http://d/","ex":"http://ex/ns#","s":"https://sec/","httpx":"http://hx/","ns3":"http://other-hub/3/"}},"` + d1 + `":[` + strings.Join(docs[i], ",") + `],"` + d2 + `":[` + docs[i][0] + `]}`
 			label := fmt.Sprintf("txn%d", i)
 			class := res.judgeParse(w, "roundtrip", label, text, true)
 			if class != "valid" {
